@@ -74,19 +74,21 @@ theorem keeps_of_users_eq {st st' : St} (h : st'.users = st.users) : Keeps st st
 theorem keeps_refl (st : St) : Keeps st st := keeps_of_users_eq rfl
 
 /-- how the capabilities of the record stored by `finishSet` relate to the old record -/
-theorem mem_finishSet {cfg : Cfg} {st : St} {id : Nat} {u' : C16.User} {p : Nat × C16.User}
-    (h : p ∈ (finishSet cfg st id u').1.users) : p = (id, u') ∨ p ∈ st.users := by
+theorem mem_finishSet {cfg : Cfg} {st : St} {id : Nat} {u' : C16.User} {fl : Bool} {p : Nat × C16.User}
+    (h : p ∈ (finishSet cfg st id u' fl).1.users) : p = (id, u') ∨ p ∈ st.users := by
   unfold finishSet at h
   simp only [] at h
   split at h
-  · exact mem_setUser h
+  · have h' : p ∈ (st.setUser cfg id u').1.users := by
+      cases fl <;> exact h
+    exact mem_setUser h'
   · rcases mem_putUser h with h | h
     · exact Or.inl h
     · exact mem_setUser h
 
-theorem keeps_finishSet {cfg : Cfg} {st st0 : St} {id : Nat} {u u' : C16.User}
+theorem keeps_finishSet {cfg : Cfg} {st st0 : St} {id : Nat} {u u' : C16.User} {fl : Bool}
     (hu : st.user id = some u) (h0 : st0.users = st.users) (hc : ∀ x ∈ u'.caps, x ∈ u.caps) :
-    Keeps st (finishSet cfg st0 id u').1 := by
+    Keeps st (finishSet cfg st0 id u' fl).1 := by
   intro p hp x hx
   rcases mem_finishSet hp with rfl | hp
   · exact ⟨u, user_mem hu, hc x hx⟩
@@ -182,7 +184,7 @@ macro "keeps_auto" hu:term : tactic => `(tactic|
 
 /-- the new table after any command other than a reload: every capability was already there, or
 was granted by `capability add` under its guard -/
-theorem body_caps (cfg : Cfg) (st : St) (pfx : Str) (c : Cmd) (hc : c ≠ .flushReload) :
+theorem body_caps (cfg : Cfg) (st : St) (pfx : Str) (c : Cmd) (hc : c ≠ .flushReload) (hr : c ≠ .reload) :
     ∀ p ∈ (body cfg st pfx c).1.users, ∀ x ∈ p.2.caps,
       (∃ u, (p.1, u) ∈ st.users ∧ x ∈ u.caps) ∨ Granted cfg st pfx c p.1 x := by
   have lift : ∀ {st' : St}, Keeps st st' → ∀ p ∈ st'.users, ∀ x ∈ p.2.caps,
@@ -191,12 +193,15 @@ theorem body_caps (cfg : Cfg) (st : St) (pfx : Str) (c : Cmd) (hc : c ≠ .flush
   have triv : ∀ id : Nat, st.user id = st.user id := fun _ => rfl
   cases c with
   | flushReload => exact absurd rfl hc
+  | reload => exact absurd rfl hr
   | register name pw =>
     apply lift
     simp only [body, doRegister]
     repeat' (first
       | exact keeps_refl _
-      | (intro p hp x hx
+      | (unfold Keeps
+         dsimp only [flushU]
+         intro p hp x hx
          simp only [List.mem_append, List.mem_singleton] at hp
          rcases hp with hp | rfl
          · exact ⟨p.2, hp, hx⟩
@@ -423,7 +428,7 @@ theorem safe_put_setUser {cfg : Cfg} {st : St} (h : SafeUsers st) {id : Nat} {u'
   · exact safe_setUser h hu' p hp
 
 theorem safe_finishSet {cfg : Cfg} {st st0 : St} (h : SafeUsers st) (h0 : st0.users = st.users) {id : Nat}
-    {u' : User} (hu' : SafeUser u') : SafeUsers (finishSet cfg st0 id u').1 := by
+    {u' : User} {fl : Bool} (hu' : SafeUser u') : SafeUsers (finishSet cfg st0 id u' fl).1 := by
   intro p hp
   rcases mem_finishSet hp with rfl | hp
   · exact hu'
@@ -467,28 +472,30 @@ macro "safe_auto" h:term "," hu:term : tactic => `(tactic|
 
 /-- commands other than a reload keep every stored field line-safe -/
 theorem body_safe (cfg : Cfg) (hcfg : HashSafe cfg) (st : St) (pfx : Str) (hpfx : C16.noBreak pfx) (c : Cmd)
-    (hc : c ≠ .flushReload) (h : SafeUsers st) : SafeUsers (body cfg st pfx c).1 := by
+    (hc : c ≠ .flushReload) (hr : c ≠ .reload) (h : SafeUsers st) : SafeUsers (body cfg st pfx c).1 := by
   have triv : st.user 0 = st.user 0 := rfl
   cases c with
   | flushReload => exact absurd rfl hc
+  | reload => exact absurd rfl hr
   | register name pw =>
     simp only [body, doRegister]
     repeat' (first
       | exact h
-      | (intro p hp
+      | (unfold SafeUsers
+         dsimp only [flushU]
+         intro p hp
          simp only [List.mem_append, List.mem_singleton] at hp
          rcases hp with hp | rfl
          · exact h p hp
-         · rename_i hlb _ _ _
-           refine ⟨noBreak_of_not_hasLineBreak (by simpa using hlb), hcfg _, fun c hc => (by cases hc), ?_,
+         · have hlb : C16.hasLineBreak name = false := by simpa using ‹¬C16.hasLineBreak name = true›
+           refine ⟨noBreak_of_not_hasLineBreak hlb, hcfg _, fun c hc => (by cases hc), ?_,
              fun c hc => (by cases hc), fun c hc => (by cases hc)⟩
            intro x hx
-           simp only [] at hx
-           split at hx
-           · simp only [List.mem_singleton] at hx
-             subst hx
-             rw [(C16.lfCore_of_noBreak hpfx).1]; exact hpfx
-           · cases hx)
+           first
+           | (simp only [List.mem_singleton] at hx
+              subst hx
+              rw [(C16.lfCore_of_noBreak hpfx).1]; exact hpfx)
+           | cases hx)
       | split)
   | unregister name pw =>
     simp only [body]
@@ -621,11 +628,12 @@ theorem setUser_cu (cfg : Cfg) (st : St) (id : Nat) (u : C16.User) : (st.setUser
       · split <;> rfl
     · split <;> rfl
 
-theorem finishSet_cu (cfg : Cfg) (st : St) (id : Nat) (u : C16.User) : (finishSet cfg st id u).1.cu = st.cu := by
+theorem finishSet_cu (cfg : Cfg) (st : St) (id : Nat) (u : C16.User) (fl : Bool) :
+    (finishSet cfg st id u fl).1.cu = st.cu := by
   unfold finishSet
   simp only []
   split
-  · exact setUser_cu cfg st id u
+  · cases fl <;> exact setUser_cu cfg st id u
   · show (putUser (st.setUser cfg id u).1 id u).cu = st.cu
     exact setUser_cu cfg st id u
 
@@ -633,14 +641,16 @@ macro "cu_auto" : tactic => `(tactic|
   ((repeat' split) <;>
    (first
     | rfl
-    | exact finishSet_cu _ _ _ _
+    | exact finishSet_cu _ _ _ _ _
+    | (show (flushU (St.setUser _ _ _ _).1).cu = _; exact setUser_cu _ _ _ _)
     | exact setUser_cu _ _ _ _
     | (show (putUser (St.setUser _ _ _ _).1 _ _).cu = _; exact setUser_cu _ _ _ _))))
 
-theorem body_cu (cfg : Cfg) (st : St) (pfx : Str) (c : Cmd) (hc : c ≠ .flushReload) :
+theorem body_cu (cfg : Cfg) (st : St) (pfx : Str) (c : Cmd) (hc : c ≠ .flushReload) (hr : c ≠ .reload) :
     (body cfg st pfx c).1.cu = st.cu := by
   cases c with
   | flushReload => exact absurd rfl hc
+  | reload => exact absurd rfl hr
   | register name pw => simp only [body, doRegister]; cu_auto
   | unregister name pw =>
     simp only [body]
